@@ -32,9 +32,13 @@ class C17(Prop):
         base = self.sandbox
         os.makedirs(os.path.join(base, "d1"), exist_ok=True)
         os.makedirs(os.path.join(base, "d2", "in"), exist_ok=True)
+        with open(os.path.join(base, "d1", "plain.txt"), "w") as fh:
+            fh.write("x")
         # the last one is the working directory of the implementation run, spelled out: it must count as given
         return [os.path.join(base, "d1"), os.path.join(base, "d2"), os.path.join(base, "d2", "in"), "/", ".", os.path.dirname(base)], \
-               [os.path.join(base, "nope"), "", os.path.join(base, "d1", "x", "y")]
+               [os.path.join(base, "nope"), "", os.path.join(base, "d1", "x", "y"),
+                # non-existent in ways other than "no such file": below a regular file, an over-long component, a NUL inside
+                os.path.join(base, "d1", "plain.txt", "sub"), os.path.join(base, "n" * 300), os.path.join(base, "d1") + "\0x"]
 
     def server_groups(self, rng):
         good, bad = self.dirs()
@@ -43,7 +47,7 @@ class C17(Prop):
             g.append(("ip", rng.choice(["-i", "--ip-address"]), ip))
         for p in ["0", "1234", "65535", "65536", "+7", "abc", "", "-1"]:
             g.append(("port", rng.choice(["-p", "--port"]), p))
-        for d in good[:3] + good[5:] + bad[:2]:
+        for d in good[:3] + good[5:] + bad[:2] + bad[3:]:
             g.append(("dir", rng.choice(["-d", "--directory"]), d))
             g.append(("rd", rng.choice(["-rd", "--receive-directory"]), d))
             g.append(("sd", rng.choice(["-sd", "--send-directory"]), d))
@@ -66,7 +70,7 @@ class C17(Prop):
             g.append(("w", rng.choice(["-w", "--windowsize"]), w))
         for t in ["1", "255", "0", "4294967296", "t"]:
             g.append(("t", rng.choice(["-t", "--timeout"]), t))
-        for d in good[:2] + bad[:1]:
+        for d in good[:2] + bad[:1] + bad[3:]:
             g.append(("rd", rng.choice(["-rd", "--receive-directory"]), d))
         g += [("up", rng.choice(["-u", "--upload"])), ("down", rng.choice(["-d", "--download"])), ("keep", "--keep-on-error"),
               ("help", rng.choice(["-h", "--help"])), ("file", "a.txt"), ("file", "/abs\\path/x"), ("file", "\\\\srv\\f"), ("file", "-z"), ("file", "")]
